@@ -211,3 +211,21 @@ def r_transform(c):
             off += n
         return dict(reproduced=bool(probs), why=probs)
     return dict(reproduced=None, error=f"no real-stack re-execution for transform/{w}")
+
+
+@handler("default_inputs_extended")
+def r_default_extended(c):
+    """two defaulted calls on the same tensor object extended in place in between"""
+    from torchjd.autojac import backward
+    from torchjd.aggregation import Constant
+    a = torch.tensor([1.0, 2.0], dtype=torch.float64, requires_grad=True)
+    b = torch.tensor([3.0, -1.0], dtype=torch.float64, requires_grad=True)
+    y = (a * torch.tensor([2.0, 5.0], dtype=torch.float64)).sum()
+    w = Constant(torch.tensor([1.5], dtype=torch.float64))
+    backward([y], w, retain_graph=True)
+    y += (b * b).sum()
+    backward([y], w, retain_graph=True)
+    probs = []
+    if b.grad is None or not close(b.grad.numpy(), 1.5 * 2 * b.detach().numpy()):
+        probs.append(f"after `y += g(b)` the second defaulted backward(y) did not deposit d y / d b into b.grad (b.grad = {None if b.grad is None else b.grad.tolist()})")
+    return dict(reproduced=bool(probs), why=probs)
